@@ -853,6 +853,15 @@ theorem byte_stream_ff_ambiguous :
 /-- the driver's string decoder is injective -/
 theorem key_str_injective : KbInj HB.keyStr := keyStr_inj
 
+/-- … and inverts the codec of the drivers: the bytes the model hashes for a key (an element, a
+    field name) ARE that string's bytes -/
+theorem key_str_inverts_code (b : List Nat) (hb : ∀ x ∈ b, x < 256) : HB.keyStr (HB.code b) = b := keyStr_code hb
+
+/-- the key order the driver runs `get_keys_in_buckets` with — byte-wise `String::cmp` on the
+    decoded keys — satisfies the `TotalOrder` hypothesis of `sim_response_order_independent` and
+    `sim_round_order_independent` -/
+theorem key_order_total : TotalOrder (fun a b => HB.bytesLe (HB.keyStr a) (HB.keyStr b)) := totalOrder_keyLe
+
 /-- **the three-use `Ideal` assumption follows from an ideal byte hash** -/
 theorem ideal_sip_hasher (sip : List Nat → Nat) (kb : Nat → List Nat) (hs : SipIdeal sip) (hkb : KbInj kb) :
     Ideal (sipHasher sip kb) := ideal_sipHasher hs hkb
